@@ -284,6 +284,7 @@ func run(r *core.Run) int {
 		go func() { defer live.Done(); liveExpiry(r, w) }()
 	}
 	r.Set("alphabet_fetcher", sims.CRLBehaviours)
+	r.Assume("live next-update observations: the wall clock does not step backwards during the three seconds they take")
 	r.Set("alphabet_http_extra", sims.CRLHTTPOnly)
 	r.Parallel(len(jobs), func(i int) {
 		j := jobs[i]
